@@ -61,6 +61,10 @@ var c06SpecCases = []c06SpecCase{
 	{"https:evil.test", "http://app.test", "https://evil.test:443"},
 	{"https:/evil.test", "http://app.test", "https://evil.test:443"},
 	{"https:///evil.test", "http://app.test", "https://evil.test:443"},
+	{"https:///evil.test/landing", "http://app.test", "https://evil.test:443"},
+	{"http:////evil.test", "http://app.test", "http://evil.test:80"},
+	{"https:///\\evil.test", "http://app.test", "https://evil.test:443"},
+	{"https://:8443/x", "http://app.test", "FAIL"},
 	{"https:\\\\\\evil.test", "http://app.test", "https://evil.test:443"},
 	{"https://evil.test", "http://app.test", "https://evil.test:443"},
 	{"http:evil.test", "http://app.test", "own"}, // same special scheme without slashes is RELATIVE
@@ -218,6 +222,9 @@ var c06WLCases = []c06WLCase{
 	{"https://GOOD.test/", []string{"good.test"}, true}, // the browser lower-cases the host
 	{"https://other.test/", []string{"good.test", ".other.test"}, true},
 	{"https://127.1/", []string{"127.0.0.1"}, true},
+	{"https://evil.test/", []string{"good.test", "", ":*", ":8443"}, false}, // an entry without a host part admits nothing
+	{"https://evil.test:8443/", []string{"", ":*", ":8443"}, false},
+	{"https://good.test/", []string{"", ":*", "good.test"}, true},
 	{"https://good.test./", []string{"good.test"}, true}, // fully-qualified spelling of the same DNS name
 	{"https://good.test.evil.test./", []string{"good.test"}, false},
 }
